@@ -162,6 +162,8 @@ def build(u, variant=None):
         return build_query(u)
     if variant == "func":
         return build_func(u)
+    if variant == "expr":
+        return build_expr(u)
     u.emit("use vstd::prelude::*;\nuse vstd::std_specs::iter::IteratorSpec;\nverus! {\n")
     for n in OPAQUE:
         u.emit("#[verifier::external_body]\npub struct %s { _opaque: u8 }\n" % n, kind="spec", key="R-opaque:" + n, props=P)
@@ -904,4 +906,126 @@ def build_func(u):
     for nm, var in [("ts_rank", "TsRank"), ("ts_rank_cd", "TsRankCd")]:
         one(nm, "Function::PgFunction(PgFunction::%s)" % var, ["vector.sp_into()", "query.sp_into()"], block="impl PgFunc", path=PF)
     u.emit("}\n")
+    u.emit("} // verus!\nfn main() {}\n")
+
+
+# =====================================================================================================================================
+# variant `expr`  ->  C05 / C06: the EXPRESSION API builds the tree its methods name: every operator gets exactly the operands given
+# =====================================================================================================================================
+PE = ["C05", "C06"]
+EXPR_TRAITS = r"""
+pub trait IntoIden: Sized { spec fn sp_iden(self) -> DynIden; fn into_iden(self) -> (r: DynIden) ensures r == self.sp_iden(); }
+pub trait IntoColumnRef: Sized { spec fn sp_column_ref(self) -> ColumnRef; fn into_column_ref(self) -> (r: ColumnRef) ensures r == self.sp_column_ref(); }
+pub trait IntoLikeExpr: Sized { spec fn sp_like(self) -> LikeExpr; fn into_like_expr(self) -> (r: LikeExpr) ensures r == self.sp_like(); }
+pub trait VInto<T>: Sized { spec fn sp_into(self) -> T; fn into(self) -> (r: T) ensures r == self.sp_into(); }
+pub trait VQueryStatementBuilder: Sized { spec fn sp_sub_query(self) -> SubQueryStatement; fn into_sub_query_statement(self) -> (r: SubQueryStatement) ensures r == self.sp_sub_query(); }
+impl VQueryStatementBuilder for SelectStatement { uninterp spec fn sp_sub_query(self) -> SubQueryStatement; #[verifier::external_body] fn into_sub_query_statement(self) -> SubQueryStatement { unimplemented!() } }
+impl VInto<SimpleExpr> for SimpleExpr { open spec fn sp_into(self) -> SimpleExpr { self } fn into(self) -> SimpleExpr { self } }
+impl VInto<BinOper> for BinOper { open spec fn sp_into(self) -> BinOper { self } fn into(self) -> BinOper { self } }
+// Expr -> SimpleExpr (`impl From<Expr> for SimpleExpr`: the expression the builder holds): a function of the builder (uninterpreted here)
+impl VInto<SimpleExpr> for Expr { uninterp spec fn sp_into(self) -> SimpleExpr; #[verifier::external_body] fn into(self) -> SimpleExpr { unimplemented!() } }
+// LikeExpr -> SimpleExpr (pattern [ESCAPE c]): a function of the pattern (uninterpreted here; its rendering is unit prec's lemma_escape_ok)
+impl VInto<SimpleExpr> for LikeExpr { uninterp spec fn sp_into(self) -> SimpleExpr; #[verifier::external_body] fn into(self) -> SimpleExpr { unimplemented!() } }
+// R-collect (trusted): `v.into_iter().map(|v| v.into()).collect()` is the list of the converted items, in order
+#[verifier::external_body]
+fn vmap_exprs<V: VInto<SimpleExpr>>(xs: Vec<V>) -> (r: Vec<SimpleExpr>) ensures r@ == xs@.map_values(|x: V| x.sp_into()) { unimplemented!() }
+pub open spec fn bin(l: SimpleExpr, o: BinOper, r: SimpleExpr) -> SimpleExpr { SimpleExpr::Binary(Box::new(l), o, Box::new(r)) }
+"""
+# ORACLE: the operator each method is named after
+BINOPS = [("add", "Add"), ("and", "And"), ("div", "Div"), ("eq", "Equal"), ("gt", "GreaterThan"), ("gte", "GreaterThanOrEqual"), ("is", "Is"), ("is_not", "IsNot"),
+          ("left_shift", "LShift"), ("lt", "SmallerThan"), ("lte", "SmallerThanOrEqual"), ("modulo", "Mod"), ("mul", "Mul"), ("ne", "NotEqual"), ("or", "Or"),
+          ("right_shift", "RShift"), ("sub", "Sub"), ("bit_and", "BitAnd"), ("bit_or", "BitOr")]
+
+
+def build_expr(u):
+    u.emit("use vstd::prelude::*;\nverus! {\n")
+    for n in ["DynIden", "Value", "ColumnRef", "SubQueryStatement", "CaseStatement", "FunctionCall", "SelectStatement", "Expr", "LikeExpr", "PgBinOper", "SqliteBinOper"]:
+        u.emit("#[verifier::external_body]\npub struct %s { _opaque: u8 }\n" % n, kind="spec", key="R-opaque:" + n, props=PE)
+    u.type_item("src/types.rs", "enum", "UnOper", props=PE)
+    u.type_item("src/types.rs", "enum", "BinOper", props=PE)
+    u.type_item("src/types.rs", "enum", "SubQueryOper", props=PE)
+    u.type_item("src/types.rs", "enum", "Keyword", props=PE)
+    u.type_item("src/expr.rs", "enum", "SimpleExpr", props=PE)
+    u.spec(EXPR_TRAITS, "builders::expr-traits", props=PE)
+    E = "src/expr.rs"
+    r_vi = make_r_sub("R-into", r"\bInto<(SimpleExpr|BinOper)>", r"VInto<\1>", min_count=0)
+    # From<Keyword> / From<ColumnRef> for SimpleExpr: extracted, as the contracted conversion
+    for ty, var in [("Keyword", "Keyword"), ("ColumnRef", "Column")]:
+        u.emit("impl VInto<SimpleExpr> for %s {\n    open spec fn sp_into(self) -> SimpleExpr { SimpleExpr::%s(self) }\n" % (ty, var), kind="spec", key="builders::From<%s> for SimpleExpr" % ty, props=PE)
+        u.fn(E, "impl From<%s> for SimpleExpr" % ty, "from", props=PE, key="From<%s> for SimpleExpr::from" % ty, vpath="<%s as VInto<SimpleExpr>>::into" % ty, rename="into", no_canary=True,
+             rules=[make_r_sub("R-into", r"fn from\((\w+): %s\) -> Self" % ty, "fn from(self) -> SimpleExpr"), make_r_sub("R-into", r"SimpleExpr::%s\(\w+\)" % var, "SimpleExpr::%s(self)" % var)])
+        u.emit("}\n")
+    # ---- trait ExprTrait: binary / unary are the implementor's; every other method is verified ONCE against their contract --------------------
+    u.emit("""pub trait ExprTrait: Sized {
+    // the expression the receiver stands for
+    spec fn sp_expr(self) -> SimpleExpr;
+    fn binary<O, R>(self, op: O, right: R) -> (r: SimpleExpr)
+    where
+        O: VInto<BinOper>,
+        R: VInto<SimpleExpr>,
+        ensures r == bin(self.sp_expr(), op.sp_into(), right.sp_into());
+    fn unary(self, o: UnOper) -> (r: SimpleExpr) ensures r == SimpleExpr::Unary(o, Box::new(self.sp_expr()));
+""", kind="spec", key="builders::trait ExprTrait", props=PE)
+    rr = [r_vi, r_iter_param, r_qsb]
+
+    def tfn(nm, post, rules=()):
+        u.fn(E, "trait ExprTrait", nm, ret="r", props=PE, key="ExprTrait::" + nm, vpath="ExprTrait::" + nm, rules=rr + list(rules),
+             spec="ensures\n    // the operator the method is named after, with exactly the operands given\n    r == %s," % post)
+    for nm, op in BINOPS:
+        tfn(nm, "bin(self.sp_expr(), BinOper::%s, right.sp_into())" % op)
+    tfn("equals", "bin(self.sp_expr(), BinOper::Equal, SimpleExpr::Column(col.sp_column_ref()))")
+    tfn("not_equals", "bin(self.sp_expr(), BinOper::NotEqual, SimpleExpr::Column(col.sp_column_ref()))")
+    tfn("between", "bin(self.sp_expr(), BinOper::Between, bin(a.sp_into(), BinOper::And, b.sp_into()))")
+    tfn("not_between", "bin(self.sp_expr(), BinOper::NotBetween, bin(a.sp_into(), BinOper::And, b.sp_into()))")
+    tfn("is_null", "bin(self.sp_expr(), BinOper::Is, SimpleExpr::Keyword(Keyword::Null))")
+    tfn("is_not_null", "bin(self.sp_expr(), BinOper::IsNot, SimpleExpr::Keyword(Keyword::Null))")
+    tfn("like", "bin(self.sp_expr(), BinOper::Like, like.sp_like().sp_into())")
+    tfn("not_like", "bin(self.sp_expr(), BinOper::NotLike, like.sp_like().sp_into())")
+    tfn("not", "SimpleExpr::Unary(UnOper::Not, Box::new(self.sp_expr()))")
+    tfn("in_subquery", "bin(self.sp_expr(), BinOper::In, SimpleExpr::SubQuery(None, Box::new(sel.sp_sub_query())))")
+    tfn("not_in_subquery", "bin(self.sp_expr(), BinOper::NotIn, SimpleExpr::SubQuery(None, Box::new(sel.sp_sub_query())))")
+    r_tuple = make_r_sub("R-collect", r"SimpleExpr::Tuple\(v\.into_iter\(\)\.map\(\|v\| v\.into\(\)\)\.collect\(\)\)", "SimpleExpr::Tuple(vmap_exprs(v))")
+    u.fn(E, "trait ExprTrait", "is_in", ret="r", props=PE, key="ExprTrait::is_in", vpath="ExprTrait::is_in", rules=rr + [r_tuple],
+         spec="ensures\n    // IN the list given, members in order\n    r is Binary && *r->Binary_0 == self.sp_expr() && r->Binary_1 == BinOper::In && *r->Binary_2 is Tuple && (*r->Binary_2)->Tuple_0@ == v@.map_values(|x: V| x.sp_into()),")
+    u.fn(E, "trait ExprTrait", "is_not_in", ret="r", props=PE, key="ExprTrait::is_not_in", vpath="ExprTrait::is_not_in", rules=rr + [r_tuple],
+         spec="ensures r is Binary && *r->Binary_0 == self.sp_expr() && r->Binary_1 == BinOper::NotIn && *r->Binary_2 is Tuple && (*r->Binary_2)->Tuple_0@ == v@.map_values(|x: V| x.sp_into()),")
+    u.emit("}\n")
+    # the blanket implementor: everything that converts into an expression
+    B = "impl<T> ExprTrait for T where T: Into<SimpleExpr>,"
+    u.emit("impl<T> ExprTrait for T where T: VInto<SimpleExpr>, {\n    open spec fn sp_expr(self) -> SimpleExpr { self.sp_into() }\n", kind="spec", key="builders::impl ExprTrait for T", props=PE)
+    u.fn(E, B, "binary", props=PE, key="ExprTrait::binary[impl]", vpath="<T as ExprTrait>::binary", rules=rr, no_canary=True)
+    u.fn(E, B, "unary", props=PE, key="ExprTrait::unary[impl]", vpath="<T as ExprTrait>::unary", rules=rr, no_canary=True, params=["o"])
+    u.emit("}\n")
+    # ---- the inherent wrappers of SimpleExpr and Expr ----------------------------------------------------------------------------------------------
+    r_pub = make_r_sub("R-inherent", r"^(\s*)pub fn", r"\1fn", flags=re.M, min_count=0)
+    for ty, blk in [("SimpleExpr", "impl SimpleExpr"), ("Expr", "impl Expr")]:
+        u.emit("impl %s {\n" % ty)
+        names = {"SimpleExpr": ["not", "and", "or", "eq", "ne", "add", "mul", "div", "sub", "binary", "like", "not_like"],
+                 "Expr": ["eq", "ne", "equals", "not_equals", "gt", "gte", "lt", "lte", "add", "sub", "mul", "div", "modulo", "left_shift", "right_shift", "between", "not_between",
+                          "like", "not_like", "is_null", "is", "is_not_null", "is_not", "binary", "not", "in_subquery", "not_in_subquery"]}[ty]
+        left = "self" if ty == "SimpleExpr" else "self.sp_into()"
+        ops = dict(BINOPS)
+        for nm in names:
+            src_fn = rl.find_fn(E, u.src(E), rl.find_block(E, u.src(E), blk)[0], nm).text
+            pm = re.search(r"fn %s(?:<[^>]*>)?\(self(?:, ([a-z_]+): [^,)]+)?(?:, ([a-z_]+): [^,)]+)?\)" % nm, rl.norm_ws(src_fn))
+            a1, a2 = (pm.group(1), pm.group(2)) if pm else (None, None)
+            conv = lambda a: a if re.search(r"\b%s: SimpleExpr\b" % a, src_fn) else "%s.sp_into()" % a
+            if nm in ops:
+                post = "bin(%s, BinOper::%s, %s)" % (left, ops[nm], conv(a1))
+            elif nm in ("equals", "not_equals"):
+                post = "bin(%s, BinOper::%s, SimpleExpr::Column(%s.sp_column_ref()))" % (left, "Equal" if nm == "equals" else "NotEqual", a1)
+            elif nm in ("between", "not_between"):
+                post = "bin(%s, BinOper::%s, bin(%s.sp_into(), BinOper::And, %s.sp_into()))" % (left, "Between" if nm == "between" else "NotBetween", a1, a2)
+            elif nm in ("is_null", "is_not_null"):
+                post = "bin(%s, BinOper::%s, SimpleExpr::Keyword(Keyword::Null))" % (left, "Is" if nm == "is_null" else "IsNot")
+            elif nm in ("like", "not_like"):
+                post = "bin(%s, BinOper::%s, %s.sp_like().sp_into())" % (left, "Like" if nm == "like" else "NotLike", a1)
+            elif nm == "not":
+                post = "SimpleExpr::Unary(UnOper::Not, Box::new(%s))" % left
+            elif nm == "binary":
+                post = "bin(%s, %s.sp_into(), %s.sp_into())" % (left, a1, a2)
+            elif nm in ("in_subquery", "not_in_subquery"):
+                post = "bin(%s, BinOper::%s, SimpleExpr::SubQuery(None, Box::new(%s.sp_sub_query())))" % (left, "In" if nm == "in_subquery" else "NotIn", a1)
+            u.fn(E, blk, nm, ret="r", props=PE, key="%s::%s" % (ty, nm), vpath="%s::%s" % (ty, nm), rules=rr + [r_pub], spec="ensures r == %s," % post)
+        u.emit("}\n")
     u.emit("} // verus!\nfn main() {}\n")
